@@ -85,7 +85,6 @@ impl Class {
                 | Class::Panic
                 | Class::Reload
                 | Class::Unchanged
-                | Class::Forged
                 | Class::IdUnique
         )
     }
